@@ -10,7 +10,7 @@
     catalog.load / NewDirectory (:43,:55)         load / new_directory (partial state on error kept)
     writeCategoryNameFile (:129)                  write_category
     newTimeBucketInfoFromTemplate (:735)          new_year_file
-    Directory.AddTimeBucket (:163)                add_time_bucket  (mkdir chain BEFORE catkeySplit[i])
+    Directory.AddTimeBucket (:163)                add_time_bucket  (item validation; mkdir chain BEFORE catkeySplit[i])
     Directory.addSubdir (:674)                    add_subdir
     Directory.RemoveTimeBucket (:216)             remove_time_bucket (deleteMap pruning, repeated RemoveAll)
     Directory.removeSubDir (:690)                 remove_subdir
@@ -404,6 +404,10 @@ Definition add_subdir (c : catalog) (child : cnode) (cdmap : dmap) (nm : name) :
   mkCat (CNode i p ct (aset nm child' s) fl)
         (dm_merge (cdm c) (map (fun '(k, a) => (k, nm :: a)) cdmap)).
 
+(** the key validation at the top of AddTimeBucket: every item names a child of the previous level
+    (an item cannot contain the separator: the items are the key split on it) *)
+Definition item_ok (c : name) : bool := negb (is_nil c || is_dot c || is_dotdot c).
+
 (** d.AddTimeBucket(tbk, f) with f.Path = [fpath] and header tag [tag] *)
 Definition add_time_bucket (w : world) (c : catalog) (k : list byte) (fpath tag : list byte)
   : world * catalog * out unit :=
@@ -412,6 +416,8 @@ Definition add_time_bucket (w : world) (c : catalog) (k : list byte) (fpath tag 
   | Some ck =>
       let cats := split_on slash ck in
       let items := key_items k in
+      if negb (forallb item_ok items) then (w, c, Fail EOther)      (* "invalid item ... in time bucket key" *)
+      else
       let rootp := cn_path (croot c) in
       let '(w1, o1) := mkdir_chain w rootp items cats 0 in
       match o1 with
@@ -684,18 +690,6 @@ Definition step (root : list byte) (st : world * catalog) (o : op) : world * cat
   | OpQuery _ => (w, c, 0)
   | OpRestart => let '(n, dm, e) := new_directory w root in
                  (w, mkCat n dm, match e with LOther => 1 | _ => 0 end)
-  end.
-
-(* ------------------------------------------------------------------ the guard of C16 *)
-(** the walk over the key's items never climbs above the directory it starts from (Path.depth_ok) *)
-(** on the key string as the client supplies it (item part = text before the first ':') *)
-Definition key_guard (key : list byte) : bool := depth_ok (key_items key) 0.
-
-(** the guard per request: only keys that create (create, write with auto-create) need it *)
-Definition op_guard (o : op) : bool :=
-  match o with
-  | OpCreate k _ _ _ | OpWrite k _ _ _ => key_guard k
-  | _ => true
   end.
 
 (* ------------------------------------------------------------------ observables *)
